@@ -41,51 +41,78 @@ pub struct Op {
     pub mode: String,
     pub out: String,
     pub backend: String,
+    /// position of the set_output_* call among the add_* calls (None = after all of them)
+    #[serde(default)]
+    pub out_pos: Option<usize>,
 }
 
 pub fn child_main(json: &str) {
     let op: Op = serde_json::from_str(json).expect("op json");
     install_panic_hook();
     fn run<B: Backend>(op: &Op) -> Result<Vec<CompilerError>, CompilerError> {
-        // build the source list in the order literals, paths, iterator
+        // the builder is a type-state machine: sources and the output mode can be given in any order
         enum St<B: Backend> {
-            None(Compiler<B, CompilerMissingParams>),
-            Some(Compiler<B, CompilerSourcesSet>),
+            Missing(Compiler<B, CompilerMissingParams>),
+            Sources(Compiler<B, CompilerSourcesSet>),
+            Output(Compiler<B, CompilerOutputSet>),
+            Ready(Compiler<B, CompilerReady>),
         }
-        let mut st: St<B> = St::None(Compiler::<B, _>::new());
+        enum Act {
+            Lit(String),
+            Path(String),
+            Iter(Vec<String>),
+            Out,
+        }
+        let mut acts: Vec<Act> = vec![];
         for l in &op.literals {
-            st = match st {
-                St::None(c) => St::Some(c.add_asn_literal(l.clone())),
-                St::Some(c) => St::Some(c.add_asn_literal(l.clone())),
-            };
+            acts.push(Act::Lit(l.clone()));
         }
         for p in &op.paths {
-            st = match st {
-                St::None(c) => St::Some(c.add_asn_by_path(p.clone())),
-                St::Some(c) => St::Some(c.add_asn_by_path(p.clone())),
-            };
+            acts.push(Act::Path(p.clone()));
         }
         if !op.iter_paths.is_empty() {
-            st = match st {
-                St::None(c) => St::Some(c.add_asn_sources_by_path(op.iter_paths.iter().cloned())),
-                St::Some(c) => St::Some(c.add_asn_sources_by_path(op.iter_paths.iter().cloned())),
+            acts.push(Act::Iter(op.iter_paths.clone()));
+        }
+        let terminal_only = matches!(op.mode.as_str(), "to-string");
+        if !terminal_only {
+            let pos = op.out_pos.unwrap_or(acts.len()).min(acts.len());
+            acts.insert(pos, Act::Out);
+        }
+        let mode = || match op.mode.as_str() {
+            "stdout" => OutputMode::Stdout,
+            "none" => OutputMode::NoOutput,
+            _ => OutputMode::SingleFile(PathBuf::from(&op.out)),
+        };
+        let mut st: St<B> = St::Missing(Compiler::<B, _>::new());
+        for a in acts {
+            st = match (st, a) {
+                (St::Missing(c), Act::Lit(l)) => St::Sources(c.add_asn_literal(l)),
+                (St::Missing(c), Act::Path(p)) => St::Sources(c.add_asn_by_path(p)),
+                (St::Missing(c), Act::Iter(v)) => St::Sources(c.add_asn_sources_by_path(v.into_iter())),
+                (St::Sources(c), Act::Lit(l)) => St::Sources(c.add_asn_literal(l)),
+                (St::Sources(c), Act::Path(p)) => St::Sources(c.add_asn_by_path(p)),
+                (St::Sources(c), Act::Iter(v)) => St::Sources(c.add_asn_sources_by_path(v.into_iter())),
+                (St::Output(c), Act::Lit(l)) => St::Ready(c.add_asn_literal(l)),
+                (St::Output(c), Act::Path(p)) => St::Ready(c.add_asn_by_path(p)),
+                (St::Output(c), Act::Iter(v)) => St::Ready(c.add_asn_sources_by_path(v.into_iter())),
+                (St::Ready(c), Act::Lit(l)) => St::Ready(c.add_asn_literal(l)),
+                (St::Ready(c), Act::Path(p)) => St::Ready(c.add_asn_by_path(p)),
+                (St::Ready(c), Act::Iter(v)) => St::Ready(c.add_asn_sources_by_path(v.into_iter())),
+                #[allow(deprecated)]
+                (St::Missing(c), Act::Out) => St::Output(if op.mode == "deprecated" { c.set_output_path(PathBuf::from(&op.out)) } else { c.set_output_mode(mode()) }),
+                #[allow(deprecated)]
+                (St::Sources(c), Act::Out) => St::Ready(if op.mode == "deprecated" { c.set_output_path(PathBuf::from(&op.out)) } else { c.set_output_mode(mode()) }),
+                (other, Act::Out) => other,
             };
         }
-        let c = match st {
-            St::Some(c) => c,
-            St::None(_) => panic!("no sources"),
-        };
-        match op.mode.as_str() {
+        match st {
+            St::Ready(c) => c.compile(),
             // reference run in the child's own environment (formatter reachable or not): print compile_to_string()
-            "to-string" => c.compile_to_string().map(|r| {
+            St::Sources(c) => c.compile_to_string().map(|r| {
                 print!("{}", r.generated);
                 r.warnings
             }),
-            "stdout" => c.set_output_mode(OutputMode::Stdout).compile(),
-            "none" => c.set_output_mode(OutputMode::NoOutput).compile(),
-            #[allow(deprecated)]
-            "deprecated" => c.set_output_path(PathBuf::from(&op.out)).compile(),
-            _ => c.set_output_mode(OutputMode::SingleFile(PathBuf::from(&op.out))).compile(),
+            _ => panic!("no sources"),
         }
     }
     let r = guarded(|| if op.backend == "ts" { run::<TypescriptBackend>(&op) } else { run::<RasnBackend>(&op) });
@@ -375,6 +402,18 @@ impl Prop for C20 {
                 }
             }
         }
+        // builder call orders: the output mode set before / between the sources
+        for backend in ["rasn", "ts"] {
+            for input in ["ok", "warn", "err"] {
+                for source in ["literal", "path", "mix", "iter-then-literal"] {
+                    for k in [0usize, 1] {
+                        for mode in ["file", "stdout", "deprecated"] {
+                            out.push(Case { steps: vec![Step { input: input.into(), source: source.into() }], mode: mode.into(), dest: "absent".into(), backend: backend.into(), via: format!("lib@{k}") });
+                        }
+                    }
+                }
+            }
+        }
         // formatter reachable: compile() must deliver what compile_to_string() returns in the same environment
         for backend in ["rasn", "ts"] {
             for input in ["ok", "warn"] {
@@ -503,7 +542,7 @@ impl Prop for C20 {
             };
             if fmt_env && exp_ok {
                 // with a formatter reachable the reference is what compile_to_string() returns in that very environment
-                let rop = Op { literals: lits.clone(), paths: vec![], iter_paths: vec![], mode: "to-string".into(), out: String::new(), backend: c.backend.clone() };
+                let rop = Op { literals: lits.clone(), paths: vec![], iter_paths: vec![], mode: "to-string".into(), out: String::new(), backend: c.backend.clone(), out_pos: None };
                 let exe = std::env::current_exe().unwrap();
                 match Command::new(exe).arg("c20op").arg(serde_json::to_string(&rop).unwrap()).env("CARGO_HOME", &cargo_home).current_dir(&inp).stdin(Stdio::null()).output() {
                     Ok(o) if String::from_utf8_lossy(&o.stderr).lines().any(|l| l.starts_with("RESULT ok")) => exp_text = String::from_utf8_lossy(&o.stdout).to_string(),
@@ -514,11 +553,18 @@ impl Prop for C20 {
             // run
             let (status_ok, stdout, result_line, panicked): (bool, Vec<u8>, String, bool);
             if c.via.starts_with("lib") {
-                let mut op = Op { literals: vec![], paths: vec![], iter_paths: vec![], mode: c.mode.clone(), out: out_arg.to_string_lossy().to_string(), backend: c.backend.clone() };
+                // "lib@k": the output mode is set before the k-th source is added (type-state builder, any call order)
+                let out_pos = c.via.split_once('@').and_then(|(_, k)| k.parse::<usize>().ok());
+                let mut op = Op { literals: vec![], paths: vec![], iter_paths: vec![], mode: c.mode.clone(), out: out_arg.to_string_lossy().to_string(), backend: c.backend.clone(), out_pos };
                 match step.source.as_str() {
                     "literal" => op.literals = lits.clone(),
                     "path" => op.paths = paths.clone(),
                     "iter" => op.iter_paths = paths.clone(),
+                    "iter-then-literal" => {
+                        // actions are ordered literals, paths, iterator: put the *first* text last as an iterator of one
+                        op.literals = lits[1..].to_vec();
+                        op.iter_paths = vec![paths[0].clone()];
+                    }
                     _ => {
                         op.literals = vec![lits[0].clone()];
                         op.paths = paths[1..].to_vec();
